@@ -1331,7 +1331,7 @@ def ulp_step(x, k):
 # C04 generators
 # =====================================================================================
 CVAR_KINDS = ["cvar-objective", "cvar-constraint"]
-SEQ_QUICK, SEQ_THOROUGH = 350, 7000
+SEQ_QUICK, SEQ_THOROUGH = 500, 7000
 MIXED_KINDS = ["cvar-objective", "cvar-constraint", "cvar-objective", "cvar-constraint", "sort-objective", "sort-constraint"]
 
 
@@ -1412,7 +1412,7 @@ def gen_cases(tier, rng):
         c = gen_filt(rng, CVAR_KINDS)
         c["_stream"] = "filt"
         yield c
-    for _ in range(150 if tier == "quick" else 6000):
+    for _ in range(200 if tier == "quick" else 6000):
         c = gen_e2e(rng, MIXED_KINDS)
         c["_stream"] = "e2e"
         yield c
